@@ -249,7 +249,15 @@ class Ctx:
         if not items:
             self.proof_broken.append(f"no theorem found in {self.modules}")
         if self.tier == "thorough" and not self.proof_broken:
-            r = run(["lake", "env", "leanchecker"] + self.modules, cwd=LEAN, timeout=3000)
+            # independent re-check of the compiled proofs: the property modules AND every project module they
+            # import (the property theorems are mostly one-line applications of lemmas proved in TjdLemmas)
+            closure = []
+            for f in module_closure(self.modules):
+                rel = f.relative_to(LEAN).with_suffix("")
+                if rel.parts[0] in ("TjdProps", "TjdLemmas", "TjdModel"):
+                    closure.append(".".join(rel.parts))
+            self.cov["leanchecker_modules"] = len(closure)
+            r = run(["lake", "env", "leanchecker"] + closure, cwd=LEAN, timeout=3000)
             self.cov["leanchecker_exit"] = r.returncode
             if r.returncode != 0:
                 self.proof_broken.append("leanchecker rejected: " + (r.stdout + r.stderr)[-800:])
@@ -336,7 +344,8 @@ class Ctx:
         self.cov["axioms_used"] = sorted({a for it in self.obligations for a in it["axioms"]})
         self.cov["checker_cmd"] = checker_cmd or (
             "cd lean && lake build && lake env lean Audit.lean"
-            + (" && lake env leanchecker " + " ".join(self.modules) if self.tier == "thorough" else ""))
+            + (" && lake env leanchecker <property modules and every project module they import>"
+               if self.tier == "thorough" else ""))
         self.cov["trusted_base"] = trusted
         self.cov["histograms"] = self.hist
         self.cov["known_findings_hit"] = self.known_hits
